@@ -33,6 +33,41 @@ Fixpoint sjoin (sep : string) (l : list string) : string :=
 
 Definition is_nil {A} (l : list A) : bool := match l with [] => true | _ => false end.
 
+(* ---------- precedence levels (Python grammar, numbering of ast._Precedence) ---------- *)
+Definition P_NONE := 0.
+Definition P_YIELD := 3.
+Definition P_TEST := 4.
+Definition P_OR := 5.
+Definition P_AND := 6.
+Definition P_NOT := 7.
+Definition P_CMP := 8.
+Definition P_BOR := 9.
+Definition P_FACTOR := 15.
+Definition P_POWER := 16.
+Definition P_AWAIT := 17.
+Definition P_ATOM := 18.
+
+(* str.isdecimal() on ASCII text *)
+Definition is_digit (c : ascii) : bool := let n := nat_of_ascii c in (48 <=? n) && (n <=? 57).
+Fixpoint all_digits (s : string) : bool :=
+  match s with EmptyString => true | String c r => is_digit c && all_digits r end.
+Definition is_decimal (s : string) : bool := match s with EmptyString => false | _ => all_digits s end.
+
+Definition starts_brace (s : string) : bool :=
+  match s with String c _ => Ascii.eqb c "{"%char | EmptyString => false end.
+
+(* Python's repr of the text (forced to single quotes) without the quotes, braces doubled: what must be escaped between the
+   single quotes of an f-string (ASCII; bytes >= 128 are kept) *)
+Definition hex_digit (n : nat) : ascii :=
+  nth n ["0"; "1"; "2"; "3"; "4"; "5"; "6"; "7"; "8"; "9"; "a"; "b"; "c"; "d"; "e"; "f"]%char "0"%char.
+Definition fesc_char (c : ascii) : string :=
+  let n := nat_of_ascii c in
+  if n =? 92 then "\\" else if n =? 39 then "\'" else if n =? 10 then "\n" else if n =? 13 then "\r" else if n =? 9 then "\t"
+  else if (n <? 32) || (n =? 127) then String "\"%char (String "x"%char (String (hex_digit (n / 16)) (String (hex_digit (n mod 16)) EmptyString)))
+  else if n =? 123 then "{{" else if n =? 125 then "}}" else String c EmptyString.
+Fixpoint fesc (s : string) : string :=
+  match s with EmptyString => EmptyString | String c r => fesc_char c ++ fesc r end.
+
 (* ---------- source syntax ---------- *)
 Inductive pkind := PO | PK | VP | KO | VK.
 
@@ -86,7 +121,7 @@ Inductive gexpr :=
 | GComprehension (t it : gexpr) (conds : list gexpr) (is_async : bool)
 | GDict (items : list (option gexpr * gexpr))
 | GDictComp (k v : gexpr) (gens : list gexpr)
-| GFormatted (v : gexpr)
+| GFormatted (v : gexpr) (conv : Z) (spec : option gexpr)
 | GGeneratorExp (e : gexpr) (gens : list gexpr)
 | GIfExp (b t o : gexpr)
 | GJoinedStr (vs : list gexpr)
@@ -125,6 +160,37 @@ Definition gname_path (g : gexpr) : string :=
 Definition is_name_or_attr (g : gexpr) : bool :=
   match g with GName _ _ | GAttribute _ => true | _ => false end.
 
+(* ---------- name resolution: what Module.resolve answers for the names a module header binds ---------- *)
+Definition nenv := list (string * string).
+Fixpoint assoc (k : string) (env : nenv) : option string :=
+  match env with
+  | [] => None
+  | (k', v) :: r => if String.eqb k k' then Some v else assoc k r
+  end.
+(* a name the module does not bind resolves to itself (NameResolutionError is swallowed by ExprName.canonical_path) *)
+Definition resolve (env : nenv) (n : string) : string := match assoc n env with Some p => p | None => n end.
+Definition is_literal_path (p : string) : bool := String.eqb p "typing.Literal" || String.eqb p "typing_extensions.Literal".
+
+(* ExprName.canonical_path, given the canonical path of the previous element of the chain *)
+Definition gname_canon (env : nenv) (prev : string) (g : gexpr) : string :=
+  match g with
+  | GName n ParScope => resolve env n
+  | GName n (ParName _) => prev ++ "." ++ n
+  | GName n ParStr => "str." ++ n
+  | GName n ParNone => n
+  | _ => ""
+  end.
+(* canonical_path of an ExprName / ExprAttribute (the latter: of its last name); None for any other class *)
+Definition gcanon (env : nenv) (g : gexpr) : option string :=
+  match g with
+  | GName _ _ => Some (gname_canon env "" g)
+  | GAttribute vs => Some (fold_left (gname_canon env) vs "")
+  | _ => None
+  end.
+(* a name, or a chain whose first element is a name *)
+Definition pure_chain (g : gexpr) : bool :=
+  match g with GName _ _ => true | GAttribute (GName _ _ :: _) => true | _ => false end.
+
 (* _build_attribute, given the built left part *)
 Definition attach_attr (lft : gexpr) (attr : string) : gexpr :=
   match lft with
@@ -152,6 +218,15 @@ Definition num_text (isint : bool) (r : string) : string := if isint then r else
 Definition optb {A B} (f : A -> option B) (o : option A) : option (option B) :=
   match o with None => Some None | Some a => match f a with Some b => Some (Some b) | None => None end end.
 
+Section WithFixes.
+Variable fx : fixes.
+Variable env : nenv.
+
+(* _build_subscript: is the built left part typing.Literal / typing_extensions.Literal *)
+Definition left_is_literal (lft : gexpr) : bool :=
+  (match gcanon env lft with Some p => is_literal_path p | None => false end)
+  && (if fx_litroot fx then pure_chain lft else true).
+
 Fixpoint build (c0 : bctx) (e : pyexpr) {struct e} : option gexpr :=
   let c := enter c0 e in
   match e with
@@ -160,7 +235,7 @@ Fixpoint build (c0 : bctx) (e : pyexpr) {struct e} : option gexpr :=
   | PConst r => if mapped NConstant then Some (GStr r) else None
   | PStr r raw parsed =>
       if mapped NConstant then
-        if injoin c && negb (infmt c) then Some (GStr raw)
+        if injoin c && negb (infmt c) then Some (GStr (if fx_fesc fx then fesc raw else raw))
         else match pm c, parsed with
              | Parse false, Some p => build (mkCtx NoParse (insub c) false false) p
              | _, _ => Some (GStr r)
@@ -219,7 +294,7 @@ Fixpoint build (c0 : bctx) (e : pyexpr) {struct e} : option gexpr :=
         | Some lft =>
             let pm' := match pm c with
                        | NoParse => NoParse
-                       | Parse l0 => Parse (l0 || (lit && is_name_or_attr lft))
+                       | Parse l0 => Parse (l0 || left_is_literal lft)
                        end in
             match build (mkCtx pm' true (injoin c) (infmt c)) sl with
             | Some s' => Some (GSubscript lft s')
@@ -319,15 +394,21 @@ Fixpoint build (c0 : bctx) (e : pyexpr) {struct e} : option gexpr :=
       else None
   | PJoinedStr vs =>
       if mapped NJoinedStr then
-        match mapo (build (mkCtx (pm c) (insub c) true (infmt c))) vs with
+        match mapo (build (mkCtx (pm c) (insub c) true (if fx_fnest fx then false else infmt c))) vs with
         | Some vs' => Some (GJoinedStr vs')
         | None => None
         end
       else None
-  | PFormattedValue v _ _ =>
+  | PFormattedValue v conv spec =>
       if mapped NFormattedValue then
         match build (mkCtx (pm c) (insub c) (injoin c) true) v with
-        | Some v' => Some (GFormatted v')
+        | Some v' =>
+            if fx_fconv fx then
+              match optb (build (mkCtx (pm c) (insub c) (injoin c) false)) spec with
+              | Some sp' => Some (GFormatted v' conv sp')
+              | None => None
+              end
+            else Some (GFormatted v' (-1)%Z None)
         | None => None
         end
       else None
@@ -363,7 +444,7 @@ Fixpoint cmp_zip (ops : list string) (cs : list (list item)) : list (list item) 
 Definition is_variadic (k : pkind) : bool := match k with VP | VK => true | _ => false end.
 Definition is_po (k : pkind) : bool := match k with PO => true | _ => false end.
 
-(* ExprLambda.iterate: the loop over parameters, with its three flags; d = already-yielded default *)
+(* ExprLambda.iterate before the repair: the loop over parameters, with its three flags; d = already-yielded default *)
 Fixpoint lam_params (ps : list (string * pkind * option (list item))) (pos_only pos_or_kw kw_only : bool) : list item :=
   match ps with
   | [] => []
@@ -383,61 +464,148 @@ Fixpoint lam_params (ps : list (string * pkind * option (list item))) (pos_only 
           ++ lam_params rest po2 pk1 ko1
   end.
 
-Fixpoint iterate (flat : bool) (g : gexpr) {struct g} : list item :=
-  let y := fun (c : gexpr) =>
-    match c with GStr s => [IStr s] | _ => if flat then iterate true c else [IExpr c] end in
-  let yo := fun (o : option gexpr) => match o with Some c => y c | None => [] end in
-  match g with
-  | GStr s => [IStr s]
-  | GName _ _ => [IExpr g]
-  | GAttribute vs => ijoin [IStr "."] (map y vs)
-  | GBinOp l op r => y l ++ [IStr (" " ++ op ++ " ")] ++ y r
-  | GBoolOp op vs => ijoin [IStr (" " ++ op ++ " ")] (map y vs)
-  | GCall f args => y f ++ [IStr "("] ++ ijoin [IStr ", "] (map y args) ++ [IStr ")"]
-  | GCompare l ops cs => y l ++ [IStr " "] ++ ijoin [IStr " "] (cmp_zip ops (map y cs))
-  | GComprehension t it conds a =>
-      (if a then [IStr "async "] else []) ++ [IStr "for "] ++ y t ++ [IStr " in "] ++ y it
-      ++ (if is_nil conds then [] else IStr " if " :: ijoin [IStr " if "] (map y conds))
-  | GDict items =>
-      [IStr "{"] ++ ijoin [IStr ", "]
-        (map (fun kv => (match fst kv with None => [IStr "**"] | Some k => y k ++ [IStr ": "] end) ++ y (snd kv)) items)
-      ++ [IStr "}"]
-  | GDictComp k v gens => [IStr "{"] ++ y k ++ [IStr ": "] ++ y v ++ [IStr " "] ++ ijoin [IStr " "] (map y gens) ++ [IStr "}"]
-  | GFormatted v => [IStr "{"] ++ y v ++ [IStr "}"]
-  | GGeneratorExp e gens => y e ++ [IStr " "] ++ ijoin [IStr " "] (map y gens)
-  | GIfExp b t o => y b ++ [IStr " if "] ++ y t ++ [IStr " else "] ++ y o
-  | GJoinedStr vs => [IStr "f'"] ++ ijoin [IStr ""] (map y vs) ++ [IStr "'"]
-  | GKeyword n v => [IStr n; IStr "="] ++ y v
-  | GVarPositional v => IStr "*" :: y v
-  | GVarKeyword v => IStr "**" :: y v
-  | GLambda params body =>
-      [IStr "lambda"] ++ (if is_nil params then [] else [IStr " "])
-      ++ lam_params (map (fun p => (fst (fst p), snd (fst p), match snd p with Some d => Some (y d) | None => None end)) params)
-                    false false false
-      ++ [IStr ": "] ++ y body
-  | GList es => [IStr "["] ++ ijoin [IStr ", "] (map y es) ++ [IStr "]"]
-  | GListComp e gens => [IStr "["] ++ y e ++ [IStr " "] ++ ijoin [IStr " "] (map y gens) ++ [IStr "]"]
-  | GNamedExpr t v => [IStr "("] ++ y t ++ [IStr " := "] ++ y v ++ [IStr ")"]
-  | GSet es => [IStr "{"] ++ ijoin [IStr ", "] (map y es) ++ [IStr "}"]
-  | GSetComp e gens => [IStr "{"] ++ y e ++ [IStr " "] ++ ijoin [IStr " "] (map y gens) ++ [IStr "}"]
-  | GSlice lo up st =>
-      yo lo ++ [IStr ":"] ++ yo up ++ (match st with Some s => IStr ":" :: y s | None => [] end)
-  | GSubscript l s => y l ++ [IStr "["] ++ y s ++ [IStr "]"]
-  | GTuple es implicit =>
-      (if implicit then [] else [IStr "("]) ++ ijoin [IStr ", "] (map y es)
-      ++ (match es with [_] => [IStr ","] | _ => [] end) ++ (if implicit then [] else [IStr ")"])
-  | GUnaryOp op v => IStr op :: y v
-  | GYield v => IStr "yield" :: (match v with Some c => IStr " " :: y c | None => [] end)
-  | GYieldFrom v => IStr "yield from " :: y v
+(* ExprLambda.iterate after the repair: `/, ` before the first parameter that is not positional-only, `*args` stands for
+   the bare `*`, and a trailing `, /` when the positional-only parameters come last *)
+Fixpoint lam_params2 (ps : list (string * pkind * option (list item))) (pos_only kw_only : bool) : list item :=
+  match ps with
+  | [] => if pos_only then [IStr ", /"] else []
+  | (name, kind, d) :: rest =>
+      let '(slash, po1) := if is_po kind then ([], true) else if pos_only then ([IStr "/, "], false) else ([], false) in
+      let '(pre, ko1) :=
+        match kind with
+        | VP => ([IStr "*"], true)
+        | VK => ([IStr "**"], kw_only)
+        | KO => if kw_only then ([], kw_only) else ([IStr "*, "], true)
+        | _ => ([], kw_only)
+        end in
+      slash ++ pre ++ [IStr name]
+          ++ (match d with Some dd => if is_variadic kind then [] else IStr "=" :: dd | None => [] end)
+          ++ (if is_nil rest then [] else [IStr ", "])
+          ++ lam_params2 rest po1 ko1
   end.
 
-(* Expr.__str__: "".join(elem if isinstance(elem, str) else elem.name for elem in self.iterate(flat=True)) *)
+(* _precedence(element): the level of the form an element is printed in (everything else is an atom or has delimiters) *)
+Definition gbinop_prec (op : string) : nat :=
+  if String.eqb op "|" then 9 else if String.eqb op "^" then 10 else if String.eqb op "&" then 11
+  else if String.eqb op "<<" || String.eqb op ">>" then 12
+  else if String.eqb op "+" || String.eqb op "-" then 13
+  else if String.eqb op "*" || String.eqb op "@" || String.eqb op "/" || String.eqb op "%" || String.eqb op "//" then 14
+  else if String.eqb op "**" then P_POWER else P_ATOM.
+Definition gprec (g : gexpr) : nat :=
+  match g with
+  | GBinOp _ op _ => gbinop_prec op
+  | GBoolOp op _ => if String.eqb op "or" then P_OR else P_AND
+  | GUnaryOp op _ => if String.eqb op "not " then P_NOT else P_FACTOR
+  | GCompare _ _ _ => P_CMP
+  | GIfExp _ _ _ | GLambda _ _ => P_TEST
+  | GYield _ | GYieldFrom _ => P_YIELD
+  | _ => P_ATOM
+  end.
+(* ExprBinOp.iterate: what it requires of its operands *)
+Definition gbin_lreq (op : string) : nat := if String.eqb op "**" then P_AWAIT else gbinop_prec op.
+Definition gbin_rreq (op : string) : nat := if String.eqb op "**" then P_FACTOR else Nat.min (S (gbinop_prec op)) P_ATOM.
+
+Definition wrap (b : bool) (l : list item) : list item := if b then IStr "(" :: l ++ [IStr ")"] else l.
+
+Definition conv_text (z : Z) : string :=
+  if (z =? -1)%Z then EmptyString else String "!"%char (String (ascii_of_nat (Z.to_nat z)) EmptyString).
+
 Definition item_text (i : item) : string :=
   match i with
   | IStr s => s
   | IExpr (GName n _) => n
   | IExpr _ => ""       (* would be an AttributeError: never produced by flat iteration (Proofs: flat_items_are_names) *)
   end.
-
 Definition render_items (l : list item) : string := sconcat (map item_text l).
+
+Definition is_genexp (g : gexpr) : bool := match g with GGeneratorExp _ _ => true | _ => false end.
+
+(* node shapes whose layout depends on the first / only child; y = _yield(_, flat, precedence) of the caller *)
+Definition attr_parts_gen (intattr : bool) (y : nat -> gexpr -> list item) (vs : list gexpr) : list (list item) :=
+  match vs with
+  | GStr s :: rest => (if intattr && is_decimal s then [IStr "("; IStr s; IStr ")"] else [IStr s]) :: map (y P_ATOM) rest
+  | _ => map (y P_ATOM) vs
+  end.
+Definition call_args_gen (genexp : bool) (y : nat -> gexpr -> list item) (args : list gexpr) : list item :=
+  match args with
+  | [GGeneratorExp _ _ as a] => if genexp then y P_NONE a else [IStr "("] ++ y P_TEST a ++ [IStr ")"]
+  | _ => [IStr "("] ++ ijoin [IStr ", "] (map (y P_TEST) args) ++ [IStr ")"]
+  end.
+Definition spec_items_gen (y : nat -> gexpr -> list item) (spec : option gexpr) : list item :=
+  match spec with
+  | Some (GJoinedStr vs) => IStr ":" :: ijoin [IStr ""] (map (y P_NONE) vs)
+  | Some o => IStr ":" :: y P_NONE o
+  | None => []
+  end.
+
+Fixpoint iterate (flat : bool) (g : gexpr) {struct g} : list item :=
+  (* _yield(element, flat=flat, precedence=req) *)
+  let y := fun (req : nat) (c : gexpr) =>
+    match c with
+    | GStr s => [IStr s]
+    | _ => wrap (fx_prec fx && (gprec c <? req)) (if flat then iterate true c else [IExpr c])
+    end in
+  let yo := fun (req : nat) (o : option gexpr) => match o with Some c => y req c | None => [] end in
+  match g with
+  | GStr s => [IStr s]
+  | GName _ _ => [IExpr g]
+  | GAttribute vs =>
+      ijoin [IStr "."] (attr_parts_gen (fx_intattr fx) y vs)
+  | GBinOp l op r => y (gbin_lreq op) l ++ [IStr (" " ++ op ++ " ")] ++ y (gbin_rreq op) r
+  | GBoolOp op vs => ijoin [IStr (" " ++ op ++ " ")] (map (y (S (gprec g))) vs)
+  | GCall f args =>
+      y P_ATOM f ++ call_args_gen (fx_genexp fx) y args
+  | GCompare l ops cs => y P_BOR l ++ [IStr " "] ++ ijoin [IStr " "] (cmp_zip ops (map (y P_BOR) cs))
+  | GComprehension t it conds a =>
+      (if a then [IStr "async "] else []) ++ [IStr "for "] ++ y P_BOR t ++ [IStr " in "] ++ y P_OR it
+      ++ (if is_nil conds then [] else IStr " if " :: ijoin [IStr " if "] (map (y P_OR) conds))
+  | GDict items =>
+      [IStr "{"] ++ ijoin [IStr ", "]
+        (map (fun kv => match fst kv with
+                        | None => [IStr "**"] ++ y P_BOR (snd kv)
+                        | Some k => y P_TEST k ++ [IStr ": "] ++ y P_TEST (snd kv)
+                        end) items)
+      ++ [IStr "}"]
+  | GDictComp k v gens =>
+      [IStr "{"] ++ y P_TEST k ++ [IStr ": "] ++ y P_TEST v ++ [IStr " "] ++ ijoin [IStr " "] (map (y P_NONE) gens) ++ [IStr "}"]
+  | GFormatted v conv spec =>
+      [IStr "{"]
+      ++ (if fx_fglue fx && (P_OR <=? gprec v) && starts_brace (render_items (match v with GStr s => [IStr s] | _ => iterate true v end))
+          then [IStr " "] else [])
+      ++ y P_OR v
+      ++ (if (conv =? -1)%Z then [] else [IStr (conv_text conv)])
+      ++ spec_items_gen y spec
+      ++ [IStr "}"]
+  | GGeneratorExp e gens =>
+      wrap (fx_genexp fx) (y P_TEST e ++ [IStr " "] ++ ijoin [IStr " "] (map (y P_NONE) gens))
+  | GIfExp b t o => y P_OR b ++ [IStr " if "] ++ y P_OR t ++ [IStr " else "] ++ y P_TEST o
+  | GJoinedStr vs => [IStr "f'"] ++ ijoin [IStr ""] (map (y P_NONE) vs) ++ [IStr "'"]
+  | GKeyword n v => [IStr n; IStr "="] ++ y P_TEST v
+  | GVarPositional v => IStr "*" :: y P_BOR v
+  | GVarKeyword v => IStr "**" :: y P_TEST v
+  | GLambda params body =>
+      let ps := map (fun p => (fst (fst p), snd (fst p), match snd p with Some d => Some (y P_TEST d) | None => None end)) params in
+      [IStr "lambda"] ++ (if is_nil params then [] else [IStr " "])
+      ++ (if fx_lambda fx then lam_params2 ps false false else lam_params ps false false false)
+      ++ [IStr ": "] ++ y P_TEST body
+  | GList es => [IStr "["] ++ ijoin [IStr ", "] (map (y P_TEST) es) ++ [IStr "]"]
+  | GListComp e gens => [IStr "["] ++ y P_TEST e ++ [IStr " "] ++ ijoin [IStr " "] (map (y P_NONE) gens) ++ [IStr "]"]
+  | GNamedExpr t v => [IStr "("] ++ y P_ATOM t ++ [IStr " := "] ++ y P_TEST v ++ [IStr ")"]
+  | GSet es => [IStr "{"] ++ ijoin [IStr ", "] (map (y P_TEST) es) ++ [IStr "}"]
+  | GSetComp e gens => [IStr "{"] ++ y P_TEST e ++ [IStr " "] ++ ijoin [IStr " "] (map (y P_NONE) gens) ++ [IStr "}"]
+  | GSlice lo up st =>
+      yo P_TEST lo ++ [IStr ":"] ++ yo P_TEST up ++ (match st with Some s => IStr ":" :: y P_TEST s | None => [] end)
+  | GSubscript l s => y P_ATOM l ++ [IStr "["] ++ y P_TEST s ++ [IStr "]"]
+  | GTuple es implicit =>
+      let par := if fx_tuple0 fx then negb implicit || is_nil es else negb implicit in
+      (if par then [IStr "("] else []) ++ ijoin [IStr ", "] (map (y P_TEST) es)
+      ++ (match es with [_] => [IStr ","] | _ => [] end) ++ (if par then [IStr ")"] else [])
+  | GUnaryOp op v => IStr op :: y (gprec g) v
+  | GYield v => IStr "yield" :: (match v with Some c => IStr " " :: y P_TEST c | None => [] end)
+  | GYieldFrom v => IStr "yield from " :: y P_TEST v
+  end.
+
+(* Expr.__str__: "".join(elem if isinstance(elem, str) else elem.name for elem in self.iterate(flat=True)) *)
 Definition render (g : gexpr) : string := render_items (iterate true g).
+
+End WithFixes.
